@@ -5,6 +5,7 @@ import (
 	"fmt"
 
 	"github.com/protolambda/zrnt/eth2/beacon/common"
+	"github.com/protolambda/zrnt/eth2/beacon/deneb"
 	"github.com/protolambda/zrnt/eth2/beacon/phase0"
 )
 
@@ -29,7 +30,12 @@ func ValidateVoluntaryExit(ctx context.Context, volExit *phase0.SignedVoluntaryE
 	if err != nil {
 		return GossipValidatorResult{IGNORE, err}
 	}
-	if err := phase0.ValidateVoluntaryExit(exitVal.Spec(), epc, state, volExit); err != nil {
+	validateExit := phase0.ValidateVoluntaryExit
+	// [Modified in Deneb:EIP7044] exits are signed over the capella fork version from deneb on
+	if epc.CurrentEpoch.Epoch >= exitVal.Spec().DENEB_FORK_EPOCH {
+		validateExit = deneb.ValidateVoluntaryExit
+	}
+	if err := validateExit(exitVal.Spec(), epc, state, volExit); err != nil {
 		return GossipValidatorResult{REJECT, err}
 	}
 
